@@ -218,7 +218,7 @@ def run(prop, tier):
         os.unlink(replay)
         # 3. impl -> spec: seeded random documents
         rnd = os.path.join(wd, "attr.rnd")
-        nrnd = 2500 if tier == "quick" else 30000
+        nrnd = 1200 if tier == "quick" else 30000
         C.run_harness(["doc-attr-record", "--seed", str(C.seed()), "--count", str(nrnd), "--out", rnd])
         # 4. one judge: Trace_Attr.tla
         trace = os.path.join(wd, "attr.trace")
